@@ -186,7 +186,11 @@ func runProperty(prop string, ip *InvProp, repo, only string, cfg solveCfg) *che
 		return res
 	}
 	for _, pass := range ip.Passes {
+		tl := time.Now()
 		w, err := loadWorld(repo, pass.Packages, pass.Tags)
+		if os.Getenv("RVC_TIMING") != "" {
+			fmt.Fprintf(os.Stderr, "timing: loaded %d packages in %.1fs\n", len(pass.Packages), time.Since(tl).Seconds())
+		}
 		if err != nil {
 			res.loadErr = err.Error()
 			return res
@@ -229,13 +233,21 @@ func runProperty(prop string, ip *InvProp, repo, only string, cfg solveCfg) *che
 				res.missing = append(res.missing, key)
 				continue
 			}
+			tg := time.Now()
 			vc := verifyFunction(w, fn, fs)
+			if os.Getenv("RVC_TIMING") != "" {
+				fmt.Fprintf(os.Stderr, "timing: generated %s in %.1fs (%d obligations)\n", key, time.Since(tg).Seconds(), len(vc.obligs))
+			}
 			wg.Add(1)
 			go func(vc *VC) {
 				defer wg.Done()
 				sem <- struct{}{}
 				defer func() { <-sem }()
+				ts := time.Now()
 				solveVC(vc, cfg)
+				if os.Getenv("RVC_TIMING") != "" {
+					fmt.Fprintf(os.Stderr, "timing: solved %s in %.1fs\n", vc.name, time.Since(ts).Seconds())
+				}
 				mu.Lock()
 				res.vcs = append(res.vcs, vc)
 				mu.Unlock()
